@@ -19,6 +19,17 @@ code -> spec : seeded random scenarios (arbitrary finite float64/int64, subnorma
                boundary lists, delta and cumulative, several collects); the harness abstracts each
                measurement with exact arithmetic (math/big) and TLC validates every collected point
                against the contract (Trace_Hist.tla).
+
+Output path (HistOutput.tla): the point a reader reports must be a function of the accumulator
+only, whatever the destination memory held before (Collect re-uses the caller's ResourceMetrics,
+the periodic reader its pool).  TLC checks ReportIndep on every explored accumulator state x every
+previous occupant of the slot (more / fewer / emptied / other-sign buckets, old data points,
+another aggregation kind, the other number type) and finds each named faulty output path on the
+model; every replayed Collect edge names its destination class, which the harness produces with
+the real SDK (donor providers); `c07 worlds` runs collection histories with shared and re-used
+destinations (several readers, instruments, meters, attribute sets, the periodic reader's pool),
+de-interleaved into one Trace_Hist scenario per (reader, stream, attribute set).  A reported
+point is fingerprinted again later: it must not change unless its own destination is re-used.
 """
 import json
 import os
@@ -64,6 +75,10 @@ def expo_vals(maxscale, variant, small):
     return with_ranks(vs)
 
 
+def tla_bool(b):
+    return "TRUE" if b else "FALSE"
+
+
 def tla_vals(vals, fields):
     return "<<" + ", ".join("[" + ", ".join("%s |-> %d" % (f, v[f]) for f in fields) + "]" for v in vals) + ">>"
 
@@ -78,6 +93,8 @@ def expo_configs(tier, seed):
             full.append(dict(maxsize=ms, maxscale=sc, variant="B"))
     for i, c in enumerate(full):
         c["cum"] = (i % 2 == 0)
+        c["nominmax"] = (i % 4 == 1)      # AggregationBase2ExponentialHistogram.NoMinMax
+        c["nosum"] = (i % 5 == 2)         # up-down counter / gauge instrument: no sum collected
     if tier == "thorough":
         out = []
         for c in full:
@@ -88,8 +105,8 @@ def expo_configs(tier, seed):
                 out.append(dict(c, cum=not c["cum"], steps=5, small=True))
         return out
     # quick: the underflow configuration always, plus a seeded sample
-    must = [dict(maxsize=1, maxscale=20, variant="A", cum=True, steps=3, small=False),
-            dict(maxsize=2, maxscale=0, variant="B", cum=False, steps=3, small=False)]
+    must = [dict(maxsize=1, maxscale=20, variant="A", cum=True, steps=3, small=False, nominmax=False, nosum=False),
+            dict(maxsize=2, maxscale=0, variant="B", cum=False, steps=3, small=False, nominmax=True, nosum=True)]
     rest = [c for c in full if not (c["maxsize"] == 1 and c["maxscale"] == 20 and c["variant"] == "A")]
     pickd = [rest[(seed * 7 + k * 11) % len(rest)] for k in range(5)]
     out = must + [dict(c, steps=3 if k else 4, small=(k == 0)) for k, c in enumerate(pickd)]
@@ -113,6 +130,8 @@ def expl_configs(tier):
     out.append(dict(name="infends", bounds=[2, 4, 6, 8], ranks=[3, 4, 5, 6, 7], reps=[7, 5, 0], steps=4))
     for i, c in enumerate(out):
         c["cum"] = (i % 2 == 1)
+        c["nominmax"] = (i % 3 == 1)
+        c["nosum"] = (i % 3 == 2)
     return out
 
 
@@ -131,7 +150,7 @@ def scenario_of(lines, line_no):
     return scen
 
 
-def report_viols(ctx, viols, trace_path, direction, src=None):
+def report_viols(ctx, viols, trace_path, direction, src=None, worlds=None):
     lines = None
     n = 0
     for v in viols:
@@ -141,13 +160,17 @@ def report_viols(ctx, viols, trace_path, direction, src=None):
         new = scen[0]
         cfg = new.get("cfg", {})
         why = "+".join(sorted(v.get("why", [])))
-        sig = {"dir": direction, "sub": v.get("kind"), "why": why,
+        sig = {"dir": direction, "sub": v.get("kind"), "why": why, "dest": v.get("dest", ""),
                "underflow": v.get("dropped", 0) > 0,
                "excess_equals_dropped": v.get("excess", 0) == v.get("dropped", 0),
                "maxscale_below_min": cfg.get("kind") == "expo" and cfg.get("maxscale", 0) < -10}
+        if worlds is not None and "world" in new:
+            src = {"world": worlds[new["world"]], "pair": new.get("pair")}
         if ctx.violation(sig, replay={"scenario": scen, "viol": v, "src": src or new.get("src"),
                                       "note": "abstract values: sg/b(exact scale-20 index)/alt/r(rank)/p/k; "
-                                              "'concrete' in the New line lists the real measurements"}):
+                                              "'concrete' in the New line lists the real measurements; Col.dest = what "
+                                              "the destination held before; Chk = later fingerprint of the point the "
+                                              "k-th Col reported"}):
             n += 1
     return n
 
@@ -184,9 +207,11 @@ def run(ctx):
     # ---------------------------------------------------------------- spec -> code, exponential
     for c in expo_configs(ctx.tier, ctx.seed):
         vals = expo_vals(c["maxscale"], c["variant"], c["small"])
-        name = "expo-n%d-s%d-%s-%s-d%d" % (c["maxsize"], c["maxscale"], c["variant"], "cum" if c["cum"] else "delta", c["steps"])
+        name = "expo-n%d-s%d-%s-%s-d%d%s%s" % (c["maxsize"], c["maxscale"], c["variant"], "cum" if c["cum"] else "delta", c["steps"],
+                                               "-nomm" if c["nominmax"] else "", "-nosum" if c["nosum"] else "")
         d = {"VALS": tla_vals(vals, ("sg", "b", "alt", "r", "k")), "MAXSIZE": c["maxsize"], "MAXSCALE": c["maxscale"],
-             "CUMULATIVE": "TRUE" if c["cum"] else "FALSE", "FIXD1": "FALSE" if d1 else "TRUE", "MAXSTEPS": c["steps"]}
+             "CUMULATIVE": "TRUE" if c["cum"] else "FALSE", "FIXD1": "FALSE" if d1 else "TRUE", "MAXSTEPS": c["steps"],
+             "NOSUM": tla_bool(c["nosum"]), "NOMINMAX": tla_bool(c["nominmax"]), "VARIANT": "code"}
         r = ctx.tlc(S, "MC_ExpoHistogram", "MC_ExpoHistogram.cfg", defines=d, want_edges=True, name=name, timeout=1800,
                     coverage=True)
         acts = set(r["zero_cov"])
@@ -197,7 +222,8 @@ def run(ctx):
         for rep in reps:
             out = os.path.join(ctx.work, "replay-%s-%d.json" % (name, rep))
             tr = os.path.join(ctx.work, "diff-%s-%d.ndjson" % (name, rep))
-            cfgj = {"kind": "expo", "maxsize": c["maxsize"], "maxscale": c["maxscale"], "cum": c["cum"], "quant": False, "bounds": []}
+            cfgj = {"kind": "expo", "maxsize": c["maxsize"], "maxscale": c["maxscale"], "cum": c["cum"], "quant": False, "bounds": [],
+                    "nosum": c["nosum"], "nominmax": c["nominmax"]}
             ctx.run([binp, "replay", "-kind", "expo", "-edges", r["edges_file"], "-cfg", json.dumps(cfgj), "-vals", json.dumps(vals),
                      "-rep", str(rep), "-trace", tr, "-out", out], timeout=1800)
             res = json.load(open(out))
@@ -220,7 +246,8 @@ def run(ctx):
     # model-level demonstrations on the underflow configuration: the statement fails on the
     # transcribed algorithm with D1 (TLC finds it) and holds once the accounting is moved
     vals = expo_vals(20, "A", False)
-    d = {"VALS": tla_vals(vals, ("sg", "b", "alt", "r", "k")), "MAXSIZE": 1, "MAXSCALE": 20, "CUMULATIVE": "TRUE", "MAXSTEPS": 3}
+    d = {"VALS": tla_vals(vals, ("sg", "b", "alt", "r", "k")), "MAXSIZE": 1, "MAXSCALE": 20, "CUMULATIVE": "TRUE", "MAXSTEPS": 3,
+         "NOSUM": "FALSE", "NOMINMAX": "FALSE", "VARIANT": "code"}
     r = ctx.tlc(S, "MC_ExpoHistogram", "MC_ExpoContract.cfg", defines=dict(d, FIXD1="FALSE"), name="nodeviation-D1",
                 must_pass=False, count=False)
     ctx.extra["tlc_finds_D1_on_the_model"] = r["violated"]
@@ -232,14 +259,16 @@ def run(ctx):
     for c in expl_configs(ctx.tier):
         nb = len(c["bounds"])
         vals = [{"r": r_, "p": r_, "k": r_ - (nb + 1)} for r_ in c["ranks"]]
-        name = "expl-%s-%s" % (c["name"], "cum" if c["cum"] else "delta")
+        name = "expl-%s-%s%s%s" % (c["name"], "cum" if c["cum"] else "delta", "-nomm" if c["nominmax"] else "", "-nosum" if c["nosum"] else "")
         d = {"BOUNDS": "<<" + ", ".join(str(b) for b in c["bounds"]) + ">>", "VALS": tla_vals(vals, ("r", "p", "k")),
-             "CUMULATIVE": "TRUE" if c["cum"] else "FALSE", "MAXSTEPS": c["steps"]}
+             "CUMULATIVE": "TRUE" if c["cum"] else "FALSE", "MAXSTEPS": c["steps"],
+             "NOSUM": tla_bool(c["nosum"]), "NOMINMAX": tla_bool(c["nominmax"]), "VARIANT": "code"}
         r = ctx.tlc(S, "MC_Histogram", "MC_Histogram.cfg", defines=d, want_edges=True, name=name, timeout=1800)
         for rep in c["reps"]:
             out = os.path.join(ctx.work, "replay-%s-%d.json" % (name, rep))
             tr = os.path.join(ctx.work, "diff-%s-%d.ndjson" % (name, rep))
-            cfgj = {"kind": "expl", "maxsize": 1, "maxscale": 0, "cum": c["cum"], "quant": rep <= 4, "bounds": c["bounds"]}
+            cfgj = {"kind": "expl", "maxsize": 1, "maxscale": 0, "cum": c["cum"], "quant": rep <= 4, "bounds": c["bounds"],
+                    "nosum": c["nosum"], "nominmax": c["nominmax"]}
             ctx.run([binp, "replay", "-kind", "expl", "-edges", r["edges_file"], "-cfg", json.dumps(cfgj),
                      "-vals", json.dumps([{"r": v["r"], "k": v["k"]} for v in vals]), "-rep", str(rep), "-trace", tr, "-out", out],
                     timeout=1800)
@@ -270,6 +299,55 @@ def run(ctx):
         ctx.extra["replay_diffs_violating_contract"] = len(explained)
         ctx.extra["replay_diffs_admissible_but_not_reference"] = max(0, refdiffs - len(explained))
 
+    # ---------------------------------------------------------------- output path: the invariant is sharp
+    # TLC must find every named faulty output path of HistOutput.tla (model-level demonstrations,
+    # never a verdict): counts copied into the destination's slice without re-slicing, an empty sign
+    # left as found, unset sum / extrema left as found, the accumulator's own memory handed out by a
+    # cumulative stream, boundaries / scale of the previous occupant kept
+    evals = expo_vals(0, "B", False)
+    ed = {"VALS": tla_vals(evals, ("sg", "b", "alt", "r", "k")), "MAXSIZE": 2, "MAXSCALE": 0, "CUMULATIVE": "FALSE", "FIXD1": "TRUE",
+          "MAXSTEPS": 2}
+    hvals = [{"r": r_, "p": r_, "k": r_ - 3} for r_ in range(1, 6)]
+    hd = {"BOUNDS": "<<2, 4>>", "VALS": tla_vals(hvals, ("r", "p", "k")), "CUMULATIVE": "TRUE", "MAXSTEPS": 2}
+    demos = [("MC_Histogram", "MC_HistOutput.cfg", hd, "copy_noreslice", False), ("MC_ExpoHistogram", "MC_ExpoOutput.cfg", ed, "skip_empty_sign", False),
+             ("MC_Histogram", "MC_HistOutput.cfg", hd, "keep_unset", True), ("MC_Histogram", "MC_HistOutput.cfg", hd, "lend_cumulative", False),
+             ("MC_ExpoHistogram", "MC_ExpoOutput.cfg", ed, "scale_if_buckets", False)]
+    if thorough:
+        demos += [("MC_ExpoHistogram", "MC_ExpoOutput.cfg", ed, "keep_unset", True), ("MC_ExpoHistogram", "MC_ExpoOutput.cfg", ed, "lend_buckets", False),
+                  ("MC_Histogram", "MC_HistOutput.cfg", hd, "reuse_bounds", False)]
+    found = {}
+    for mod, cfg, dd, variant, flags in demos:
+        r = ctx.tlc(S, mod, cfg, defines=dict(dd, VARIANT=variant, NOSUM=tla_bool(flags), NOMINMAX=tla_bool(flags)),
+                    name="faulty-output-%s-%s" % (variant, "expo" if "Expo" in mod else "expl"), must_pass=False, count=False)
+        found[variant + ("/expo" if "Expo" in mod else "/expl")] = r["violated"]
+        if r["violated"] != "ReportIndep":
+            ctx.note_inconclusive("TLC did not find the faulty output path %s on the model (got %r): %s" % (variant, r["violated"], r["out"]))
+    ctx.extra["tlc_finds_faulty_output_paths_on_the_model"] = found
+
+    # ---------------------------------------------------------------- code -> spec: collection histories, re-used destinations
+    nw, batches = (500, 6) if thorough else (300, 1)
+    wlines = 0
+    for bt in range(batches):
+        wtrace = os.path.join(ctx.work, "worlds-%d.ndjson" % bt)
+        wres = os.path.join(ctx.work, "worlds-%d.json" % bt)
+        wdesc = os.path.join(ctx.work, "worlds-desc-%d.json" % bt)
+        ctx.run([binp, "worlds", "-n", str(nw), "-batch", str(bt), "-trace", wtrace, "-res", wres, "-worlds", wdesc], timeout=1800)
+        res = json.load(open(wres))
+        for m in res["mismatches"]:
+            ctx.violation({"dir": "worlds", "sub": "world", "why": "panic"}, replay=m)
+        for s_ in res["inconclusive"]:
+            ctx.note_inconclusive(s_)
+        viols, accepted = ctx.validate_trace(S, "Trace_Hist", "Trace_Hist.cfg", wtrace, timeout=3600, name="trace-worlds-%d" % bt)
+        wlines += accepted
+        ctx.traces_validated += res["counters"].get("world_scenarios", 0)
+        ctx.evaluations += res["executed"]
+        res["counters"] = {(k if k.startswith("world_") else "world_" + k): v for k, v in res["counters"].items()}
+        merge_counters(ctx, res, "")
+        if viols:
+            report_viols(ctx, viols, wtrace, "worlds", worlds=json.load(open(wdesc)))
+    ctx.extra["worlds"] = nw * batches
+    ctx.extra["world_trace_lines_validated"] = wlines
+
     # ---------------------------------------------------------------- code -> spec
     n = 12000 if thorough else 1500
     trace = os.path.join(ctx.work, "trace.ndjson")
@@ -291,7 +369,17 @@ def run(ctx):
                  "random_expo_values_exact_pow2", "random_expo_values_near_irrational_boundary",
                  "random_expo_scenarios_with_scale_underflow_error", "random_expl_values_on_a_boundary",
                  "replay_path_down-prepend", "replay_path_down-append", "replay_path_down-inrange", "replay_path_prepend",
-                 "replay_path_append", "replay_path_underflow", "replay_path_zero"):
+                 "replay_path_append", "replay_path_underflow", "replay_path_zero",
+                 # output path: every class of previous occupant really occurred, in replay and in the histories
+                 "replay_dest_fresh", "replay_dest_own", "replay_dest_same:more", "replay_dest_same:fewer", "replay_dest_same:emptied",
+                 "replay_dest_same:neg-only", "replay_dest_same:pos-only", "replay_dest_other:kind", "replay_dest_other:num",
+                 "replay_dest_other:sum", "replay_alias_checks", "random_dest_same:more", "random_alias_checks",
+                 "random_expo_points_nominmax", "random_expo_points_nosum",
+                 "world_slot_more-buckets", "world_slot_fewer-buckets", "world_slot_other-sign", "world_slot_other-kind",
+                 "world_slot_other-num", "world_slot_same-kind-new-point", "world_slot_same-shape", "world_collects_reused",
+                 "world_collects_reused-other-reader", "world_collects_fresh", "world_pool_destination_reused",
+                 "world_points_expl_cum", "world_points_expl_delta", "world_points_expo_cum", "world_points_expo_delta",
+                 "world_points_nominmax", "world_points_nosum", "world_alias_checks"):
         if not cnt.get(need):
             ctx.note_inconclusive("vacuity: regime %s never reached" % need)
     ctx.assumptions += [
@@ -303,6 +391,13 @@ def run(ctx):
         "float sums: exact for quantised scenarios (all values multiples of 2^e), otherwise within n*2^-52*sum|v| of the "
         "exact sum (any summation order); sums whose exact value or a partial sum is unrepresentable are skipped",
         "scale choice is free within the statement's limits (any scale <= previous that satisfies the constraints)",
+        "a stream configured with NoMinMax must report no extrema, a stream that collects no sum (up-down counter / gauge "
+        "aggregated as a histogram) must report the zero value: anything else is a value the point's measurements do not have",
+        "destination memory: previous occupants are real SDK output (donor providers, other readers, earlier cycles), never "
+        "hand-made memory; map iteration order (scopes, attribute sets) and sync.Pool behaviour are not seeded: they only "
+        "decide WHICH re-use happens, every outcome must satisfy the contract",
+        "a reported point may change only when the ResourceMetrics it lives in is handed to a collection again (documented "
+        "re-use); points the periodic reader exports are only looked at inside Export",
     ]
     ctx.extra["rule"] = ("edges: every transition of ExpoHistogram.tla / Histogram.tla for the listed configurations and "
                          "concretizations; random: seeded scenarios; a case is distinct by (configuration, measurement sequence)")
